@@ -519,12 +519,14 @@ func EVAL(ctx context.Context, ast MalType, env EnvType) (res MalType, e error) 
 			}
 			exp, e := func() (res MalType, err error) {
 				defer malRecover(&err)
-				if dl, ok := ctx.Deadline(); ok {
-					// give 80% of the time to the try, and the remaining 20% to the catch + finally
-					timeout := (time.Until(dl) / 10) * 8
-					ctx, cancel := context.WithTimeout(ctx, timeout)
-					defer cancel()
-					return do(ctx, tryDo, 0, 0, env)
+				if ctx != nil {
+					if dl, ok := ctx.Deadline(); ok {
+						// give 80% of the time to the try, and the remaining 20% to the catch + finally
+						timeout := (time.Until(dl) / 10) * 8
+						ctx, cancel := context.WithTimeout(ctx, timeout)
+						defer cancel()
+						return do(ctx, tryDo, 0, 0, env)
+					}
 				}
 				return do(ctx, tryDo, 0, 0, env)
 			}()
